@@ -139,8 +139,6 @@ theorem parked_receive_is_released (s : State) (x : Nat) (rest : List Nat)
 /-- number of arrivals that are *available*: signalled (append + set done) and not yet returned. -/
 def available (v : View) : Nat := v.signalled - v.returnedN
 
-/-- outcomes of the finished calls, oldest first -/
-def outcomes (s : State) : List Outcome := s.log.map Prod.fst
 
 /-
   FULL STATEMENT (false for this version of the code, see `timeout_full_statement_fails`):
@@ -205,6 +203,67 @@ theorem next_receive_returns_head (s : State) (x : Nat) (rest : List Nat) (t b1 
     (run s [.start (.recv t), .cons b1, .cons b2]).log.map Prod.fst =
       s.log.map Prod.fst ++ [.returned x] := by
   simp [run, step, startStep, hc, consStep, hb, finish]
+
+/-- a step of the environment of the consumer: producer or connection-handler thread -/
+def isEnv : Choice → Bool
+  | .prod | .conn _ => true
+  | _ => false
+
+theorem env_run (env : List Choice) (henv : ∀ c ∈ env, isEnv c = true) (s : State) :
+    (run s env).cpc = s.cpc ∧ (run s env).log = s.log ∧ ∃ extra, (run s env).buf = s.buf ++ extra := by
+  induction env generalizing s with
+  | nil => exact ⟨rfl, rfl, [], by simp [run]⟩
+  | cons c cs ih =>
+    have hc := henv c (by simp)
+    obtain ⟨h1, h2, ex, h3⟩ := ih (fun c' hc' => henv c' (by simp [hc'])) (step s c)
+    have hs : (step s c).cpc = s.cpc ∧ (step s c).log = s.log ∧ ∃ e, (step s c).buf = s.buf ++ e := by
+      cases c with
+      | prod =>
+        simp only [step, prodStep]; split
+        · exact ⟨rfl, rfl, _, rfl⟩
+        · exact ⟨rfl, rfl, [], by simp [setInput]⟩
+      | conn k =>
+        simp only [step, connStep]; split
+        · cases k <;> exact ⟨rfl, rfl, [], by simp⟩
+        · exact ⟨rfl, rfl, [], by simp [setConn]⟩
+        · exact ⟨rfl, rfl, [], by simp [setConn]⟩
+      | cons ok => simp [isEnv] at hc
+      | timeout => simp [isEnv] at hc
+      | start op => simp [isEnv] at hc
+    obtain ⟨g1, g2, e0, g3⟩ := hs
+    refine ⟨?_, ?_, e0 ++ ex, ?_⟩
+    · show (run (step s c) cs).cpc = s.cpc
+      rw [h1, g1]
+    · show (run (step s c) cs).log = s.log
+      rw [h2, g2]
+    · show (run (step s c) cs).buf = s.buf ++ (e0 ++ ex)
+      rw [h3, g3, List.append_assoc]
+
+/-- the same under any interference: whatever the producer and the connection handlers do before,
+    between and after the two steps of the next `receive()`, it returns the event that was at the
+    head of the buffer when the previous call ended. -/
+theorem next_receive_returns_head_under_interference (s : State) (x : Nat) (rest : List Nat)
+    (t b1 b2 : Bool) (e1 e2 e3 : List Choice)
+    (h1 : ∀ c ∈ e1, isEnv c = true) (h2 : ∀ c ∈ e2, isEnv c = true) (h3 : ∀ c ∈ e3, isEnv c = true)
+    (hc : s.cpc = .idle) (hb : s.buf = x :: rest) :
+    (run s (e1 ++ [.start (.recv t)] ++ e2 ++ [.cons b1] ++ e3 ++ [.cons b2])).log.map Prod.fst =
+      s.log.map Prod.fst ++ [.returned x] := by
+  simp only [run_append]
+  obtain ⟨a1, a2, x1, a3⟩ := env_run e1 h1 s
+  generalize run s e1 = s1 at a1 a2 a3
+  have hs2 : (run s1 [.start (.recv t)]).cpc = .r0 ∧ (run s1 [.start (.recv t)]).log = s.log ∧
+      (run s1 [.start (.recv t)]).buf = x :: (rest ++ x1) := by
+    simp [run, step, startStep, a1, hc, a2, a3, hb]
+  generalize run s1 [.start (.recv t)] = s2 at hs2
+  obtain ⟨b1', b2', x2, b3'⟩ := env_run e2 h2 s2
+  generalize run s2 e2 = s3 at b1' b2' b3'
+  have hs4 : (run s3 [.cons b1]).cpc = .r5 ∧ (run s3 [.cons b1]).log = s.log ∧
+      (run s3 [.cons b1]).buf = x :: (rest ++ x1 ++ x2) := by
+    simp [run, step, consStep, b1', hs2.1, b3', hs2.2.2, b2', hs2.2.1]
+  generalize run s3 [.cons b1] = s4 at hs4
+  obtain ⟨c1', c2', x3, c3'⟩ := env_run e3 h3 s4
+  generalize run s4 e3 = s5 at c1' c2' c3'
+  simp [run, step, consStep, c1', hs4.1, c3', hs4.2.2, finish, c2', hs4.2.1]
 
 /-! ## DisconnectedError -/
 
@@ -383,6 +442,11 @@ example : let s := run init [.conn .connect, .conn .connect, .start (.recv false
     an await really suspends) … -/
 theorem async_schedule_is_thread_schedule (asched : List Choice) :
     ∃ sched, Async.run init asched = run init sched := arun_is_run asched init
+
+/-- a consumer step of the asyncio variant always ends at a real suspension point (the call is over,
+    it awaits `client.emit/call`, or it is parked and not notified), from any state whatsoever. -/
+theorem async_consumer_runs_to_suspension (s : State) (ok : Bool) :
+    Async.stop (Async.step s (.cons ok)) = true := consRun_stops _
 
 /-- … so whatever holds after every thread schedule holds after every asyncio schedule. -/
 theorem async_transfer (P : State → Prop) (h : ∀ sched, P (run init sched)) (asched : List Choice) :
